@@ -41,3 +41,23 @@ Definition run_c14_2 (s : sx) : sx :=
   let pos := sxN (sx_nth s 3) in
   let ws := sxNs (sx_nth s 4) in
   L [sx_of_lr (parse_full c inp fuel pos); sx_of_lr (parse_full (with_ws c ws) inp fuel pos)].
+
+(* 143: () -> the constants of C14_std_layout_partial in the format of the impl dumps:
+        (grammar table-without-items terms stop) *)
+Definition sx_of_action (a : action) : sx :=
+  match a with
+  | Shift s => L [A 0; ofNat s]
+  | Reduce p => L [A 1; A p]
+  | Accept => L [A 2]
+  end.
+Definition sx_of_state (st : state) : sx :=
+  L [sx_of_sym (st_sym st);
+     L (map (fun ya => L [A (fst ya); L (map sx_of_action (snd ya))]) (st_actions st));
+     L (map (fun gt => L [A (fst gt); ofNat (snd gt)]) (st_gotos st));
+     L (map ofB (st_finish st));
+     L (map (fun it => L [A (fst it); ofNat (snd it)]) (st_items st))].
+Definition run_c14_3 (_ : sx) : sx :=
+  L [L (map (fun pr => L [A (lhs pr); L (map sx_of_sym (rhs pr))]) g_std);
+     L (map sx_of_state ltb_std);
+     L (map (fun t => L [A (ti_prior t); ofB (ti_prefer t)]) terms_std);
+     A 3].
